@@ -24,6 +24,7 @@ Sums(cuts, i, acc) == IF i > Len(cuts) THEN <<>> ELSE <<acc + cuts[i]>> \o Sums(
 THash == /\ IsEvent("hash") /\ Keep
          /\ LET m == B(Ev.msg)  d == H!Digest(Ev.alg, m) IN
             /\ B(Ev.digest) = d /\ B(Ev.oneshot) = d
+            /\ (Has("overmsg") => B(Ev.overmsg) = d)                \* also with the digest written over the message
             /\ (Ev.alg = "sha256" /\ Len(m) <= REFMAX) => d = R!Sha256Ref(m)
             /\ Ev.counts = Sums(Ev.cuts, 1, 0)
             /\ Ev.zero
@@ -42,6 +43,7 @@ TCrc == /\ IsEvent("crc") /\ Keep
 \* C02
 TAes == /\ IsEvent("aes") /\ Keep /\ B(Ev.out) = AESEncryptBlock(B(Ev.key), B(Ev.in)) /\ Ev.tainted = 0
         /\ B(Ev.out) = X!AesRefEncrypt(B(Ev.key), B(Ev.in))
+        /\ (Has("inplace") => Ev.inplace = Ev.out)                  \* the same block encrypted in place
 \* (C03 / C14) a key expansion fails only when an allocation was refused; whatever path was selected then, later results are right
 TAesExpand == IsEvent("aes_expand") /\ Keep /\ (Ev.ok \/ Ev.inj > 0)
 TFreshEnd == IsEvent("fresh_end") /\ Keep /\ Ev.status = 0
